@@ -118,6 +118,19 @@ impl Adapter for MarlinA {
             guard_any(|| MarlinPC::setup(c.usize1("max_degree"), opt_usize(c.str1("num_vars")), &mut rng))
         }
     }
+    fn key_obs(ck: &CK<Self>, vk: &VK<Self>, out: &mut Out) {
+        let dash = |v: Vec<String>| if v.is_empty() { vec!["-".to_string()] } else { v };
+        out.obs("key.powers", "G1", &ck.powers.iter().map(ser_hex).collect::<Vec<_>>());
+        out.obs("key.gamma", "G1", &ck.powers_of_gamma_g.iter().map(ser_hex).collect::<Vec<_>>());
+        if let Some(sp) = &ck.shifted_powers { out.obs("key.shifted", "G1", &sp.iter().map(ser_hex).collect::<Vec<_>>()); }
+        out.obs("key.bounds", "N", &dash(ck.enforced_degree_bounds.clone().map(|b| b.iter().map(|x| x.to_string()).collect()).unwrap_or(vec!["none".into()])));
+        if let Some(v) = &vk.degree_bounds_and_shift_powers {
+            out.obs("key.shift_bounds", "N", &dash(v.iter().map(|(b, _)| b.to_string()).collect()));
+            out.obs("key.shift_powers", "G1", &v.iter().map(|(_, p)| ser_hex(p)).collect::<Vec<_>>());
+        }
+        out.obs("key.vk1", "G1", &[ser_hex(&vk.vk.g), ser_hex(&vk.vk.gamma_g)]);
+        out.obs("key.vk2", "G2", &[ser_hex(&vk.vk.h), ser_hex(&vk.vk.beta_h)]);
+    }
     fn comm_obs(i: usize, cm: &Cm<Self>, st: &St<Self>, out: &mut Out) {
         let mut v = vec![ser_hex(&cm.comm.0)];
         if let Some(s) = &cm.shifted_comm { v.push(ser_hex(&s.0)); }
